@@ -111,7 +111,10 @@ class SetupPyAddDependencies(SimpleCodemod, NameResolutionMixin):
 
         # we add the new dependencies in the same line as the last
         # dependency listed in install_requires
-        self.line_num_changed = self.lineno_for_node(arg.value.elements[-1]) - 1
+        # a line number starts at 1 (the whole `setup(...)` call may be on the first line)
+        self.line_num_changed = max(
+            1, self.lineno_for_node(arg.value.elements[-1]) - 1
+        )
 
         # grab the penultimate comma value if it has more than one element
         new_comma = cst.Comma(whitespace_after=cst.SimpleWhitespace(" "))
